@@ -181,10 +181,63 @@ def run_shard(spec, acc, ctx):
             expect_value_error(acc, "bad-key-length", lambda: cls(key_length=kl))
         for cl in (1, 15, 17, 31, 47):
             expect_value_error(acc, "bad-cipher-length", lambda: cls(key_length=16, cipher_length=cl))
-        for kl in KEY_LENGTHS:
-            for ml in (0, 1, 15, 16, 17, 40, 239, 240, 255, 256, 257, 272, 1000, 4096, 65536, 65537):
+        # All declared-length objects are built FIRST and stay alive while each is used (in shuffled order), together
+        # with objects that declare only one of the two lengths or none: a declaration belongs to its object.
+        grid = [(kl, ml) for kl in KEY_LENGTHS
+                for ml in (0, 1, 15, 16, 17, 32, 40, 239, 240, 255, 256, 257, 272, 1000, 4096, 65536, 65537)]
+        live = {}
+        for kl, ml in grid:
+            cl = 16 + 16 * (ml // 16 + 1)
+            try:
+                live[(kl, ml)] = cls(key_length=kl, message_length=ml, cipher_length=cl)
+            except Exception as e:
+                acc.violation("aes:declared-lengths:constructor-raised",
+                              f"the constructor refused the consistent declaration message_length={ml}, "
+                              f"cipher_length={cl}: {type(e).__name__}: {e}", {"key_length": kl, "message_length": ml})
+        unrestricted = {kl: cls(key_length=kl) for kl in KEY_LENGTHS}
+        only_m, only_c = {}, {}
+        for kl, ml in grid[::3]:
+            try:
+                only_m[(kl, ml)] = cls(key_length=kl, message_length=ml)
+                only_c[(kl, ml)] = cls(key_length=kl, cipher_length=16 + 16 * (ml // 16 + 1))
+            except Exception as e:
+                acc.violation("aes:declared-lengths:constructor-raised",
+                              f"the constructor refused message_length={ml} alone or its cipher length alone: "
+                              f"{type(e).__name__}: {e}", {"key_length": kl, "message_length": ml})
+        order = list(live)
+        rng.shuffle(order)
+        for kl, ml in order:
+            for which, table in (("message_length only", only_m), ("cipher_length only", only_c)):
+                o = table.get((kl, ml))
+                if o is None:
+                    continue
+                acc.count("contract.one-sided-declaration")
+                key, m = rng.randbytes(kl), rng.randbytes(ml)
+                try:
+                    if o.Decrypt(key, o.Encrypt(key, m)) != m:
+                        acc.violation("aes:declared-lengths", f"an instance declared with {which} does not round-trip",
+                                      {"key_length": kl, "message_length": ml})
+                except Exception as e:
+                    acc.violation("aes:declared-lengths:raised",
+                                  f"an instance declared with {which} ({ml} / {16 + 16 * (ml // 16 + 1)}) refused its own "
+                                  f"lengths: {type(e).__name__}: {e}", {"key_length": kl, "message_length": ml})
+            u = unrestricted[kl]
+            key = rng.randbytes(kl)
+            for n in (0, 1, ml + 1):
+                m = rng.randbytes(n)
+                acc.count("contract.unrestricted-next-to-declared")
+                try:
+                    if u.Decrypt(key, u.Encrypt(key, m)) != m:
+                        acc.violation("aes:roundtrip", "an instance without declared lengths does not round-trip", {})
+                except Exception as e:
+                    acc.violation("aes:undeclared-instance-refuses",
+                                  f"an instance that declares no message / cipher length refused a {n}-byte message while "
+                                  f"other instances with declared lengths are alive: {type(e).__name__}: {e}",
+                                  {"key_length": kl, "message_length": n})
+        for kl, ml in order:
+            if True:
                 cl = 16 + 16 * (ml // 16 + 1)
-                ske = cls(key_length=kl, message_length=ml, cipher_length=cl)
+                ske = live[(kl, ml)]
                 key = rng.randbytes(kl)
                 m = rng.randbytes(ml)
                 acc.count("contract.positive")
